@@ -145,7 +145,11 @@ func (g *gen) attrs(max int) []Attr {
 	for i := 0; i < n; i++ {
 		switch g.r.Intn(5) {
 		case 0, 1:
-			out = append(out, Attr{Kind: 0, Name: g.id("a"), Val: g.str()})
+			name := g.id("a")
+			if g.hostile && g.r.Chance(1, 2) {
+				name = []string{"ov1", "ov2"}[g.r.Intn(2)] // the same [name=value] on several declarations of one owner
+			}
+			out = append(out, Attr{Kind: 0, Name: name, Val: g.str()})
 		case 2, 3:
 			out = append(out, Attr{Kind: 1, Name: g.id("m")})
 		default:
@@ -310,14 +314,19 @@ func (g *gen) epShare(p *appPlan, apps []string, event bool) EpD {
 		prefix = "V"
 	}
 	var name string
+	again := false
 	if len(*pool) > 0 && g.r.Chance(1, 3) && (!event || g.hostile) {
 		name = (*pool)[g.r.Intn(len(*pool))]
+		again = true
 	} else {
 		name = fmt.Sprintf("%s%d", prefix, len(*pool))
 		*pool = append(*pool, name)
 		p.epAnno[prefix+name] = &[]string{}
 	}
 	e := EpD{Event: event, Name: name, Attrs: g.attrs(3)}
+	if event && again {
+		e.Attrs = nil // EnterEvent replaces the attribute map: a value matter outside this property
+	}
 	if !event && g.r.Chance(1, 4) {
 		e.Long = g.str()
 	}
@@ -340,9 +349,19 @@ func (g *gen) rest(p *appPlan, apps []string, depth int, prefix string) Rest {
 		r.Path = seg + "/{" + v + " <: int}"
 		r.Name = seg + "/{" + v + "}"
 	}
-	r.Attrs = g.attrs(2)
+	// no array values on REST paths: a method declared twice under one path merges the shared attribute object
+	// into itself and doubles its items (a value defect outside this property)
+	for _, a := range g.attrs(2) {
+		if a.Kind != 2 {
+			r.Attrs = append(r.Attrs, a)
+		}
+	}
 	var pool []string
-	r.Annos = g.annos(&pool, 1)
+	for _, a := range g.annos(&pool, 1) {
+		if len(a.Items) == 0 {
+			r.Annos = append(r.Annos, a)
+		}
+	}
 	nm := g.r.Intn(3)
 	if depth == 0 && nm == 0 {
 		nm = 1
